@@ -2,7 +2,12 @@
 //
 // Line format (lean/PV/C23/Main.lean):
 //
-//	call <STARTING|NORMAL|DEGRADED|RESIZING> <EntryPointName>
+//	call <STARTING|NORMAL|DEGRADED|RESIZING> <EntryPointName> [<request shape>]
+//
+// Entry points whose body takes different paths BEFORE acting, depending on the request, are invoked
+// with every such request shape (`variants`): Query local/remote, with/without Shards, read/write,
+// with keys; Import/ImportValue by ids, by column keys, by row keys, with the clear and
+// IgnoreKeyCheck options; ImportRoaring and ApplySchema with remote true/false.
 //
 // The server is put into the named cluster state through the verif hook, the entry point (an
 // exported method of *pilosa.API, found by reflection so that a method added to the source is
@@ -41,7 +46,8 @@ type prop struct {
 }
 
 func (p *prop) Rule() string {
-	return "every (cluster state, exported *API method) pair is enumerated first (shuffled), then random pairs; the state is forced through a verif hook on a " +
+	return "every (cluster state, exported *API method, request shape) triple is enumerated first (shuffled), then random triples; request shapes cover every path an entry point " +
+		"can take before acting (Query local/remote/with shards/read/write/keyed, Import and ImportValue by ids/column keys/row keys/clear/IgnoreKeyCheck, ImportRoaring and ApplySchema remote/local); the state is forced through a verif hook on a " +
 		"single-node in-process server holding a small dataset (set, int and keyed fields); a case is non-trivial when it contains a call in STARTING or RESIZING " +
 		"(where refusal and untouched data are checked) and one in NORMAL or DEGRADED"
 }
@@ -58,12 +64,30 @@ func apiMethods() []string {
 	return out
 }
 
+// request shapes per entry point ("-" = the only shape)
+var variants = map[string][]string{
+	"Query":         {"write", "read", "remote-write", "remote-read", "shards-read", "remote-noshards-write", "keyed-write", "remote-keyed-write"},
+	"Import":        {"ids", "ids-clear", "ids-ignorekeycheck", "colkeys", "rowkeys", "colkeys-clear", "colkeys-ignorekeycheck"},
+	"ImportValue":   {"ids", "ids-ignorekeycheck", "colkeys"},
+	"ImportRoaring": {"remote", "local", "remote-clear"},
+	"ApplySchema":   {"remote", "local"},
+}
+
+func shapesOf(m string) []string {
+	if v, ok := variants[m]; ok {
+		return v
+	}
+	return []string{"-"}
+}
+
 func (p *prop) Gen(r *vh.Rng, tier string, n int) []vh.Case {
 	ms := apiMethods()
 	var pairs []string
 	for _, st := range states {
 		for _, m := range ms {
-			pairs = append(pairs, st+" "+m)
+			for _, v := range shapesOf(m) {
+				pairs = append(pairs, st+" "+m+" "+v)
+			}
 		}
 	}
 	perm := r.Perm(len(pairs))
@@ -73,13 +97,19 @@ func (p *prop) Gen(r *vh.Rng, tier string, n int) []vh.Case {
 		cr := r.Fork()
 		var lines []string
 		hasRef, hasServ := false, false
-		for i := 0; i < 6; i++ {
+		for i := 0; i < 8; i++ {
 			var pr string
 			if next < len(perm) {
 				pr = pairs[perm[next]]
 				next++
 			} else {
-				pr = states[cr.Intn(len(states))] + " " + ms[cr.Intn(len(ms))]
+				// half of the random lines go to the entry points with several request shapes
+				m := ms[cr.Intn(len(ms))]
+				if cr.Bool() {
+					m = cr.PickS("Query", "Import", "ImportValue", "ImportRoaring", "ApplySchema")
+				}
+				sh := shapesOf(m)
+				pr = states[cr.Intn(len(states))] + " " + m + " " + sh[cr.Intn(len(sh))]
 			}
 			if strings.HasPrefix(pr, "STARTING") || strings.HasPrefix(pr, "RESIZING") {
 				hasRef = true
@@ -150,7 +180,88 @@ func (p *prop) ensureBaseline() error {
 			return err
 		}
 	}
+	if _, err := api.Field(ctx, "k", "kv"); err != nil {
+		if _, err := api.CreateField(ctx, "k", "kv", pilosa.OptFieldTypeInt(-10, 100)); err != nil {
+			return err
+		}
+	}
+	if _, err := api.Field(ctx, "i", "fk"); err != nil { // keyed field in an unkeyed index
+		if _, err := api.CreateField(ctx, "i", "fk", pilosa.OptFieldTypeSet("ranked", 100), pilosa.OptFieldKeys()); err != nil {
+			return err
+		}
+	}
 	return nil
+}
+
+// shapedArgs builds the arguments of the entry points that have several request shapes.
+func (p *prop) shapedArgs(name, shape string, ctx context.Context) ([]reflect.Value, bool) {
+	has := func(x string) bool { return strings.Contains(shape, x) }
+	n := p.seq
+	vals := func(xs ...interface{}) []reflect.Value {
+		out := make([]reflect.Value, len(xs))
+		for i, x := range xs {
+			out[i] = reflect.ValueOf(x)
+		}
+		return out
+	}
+	switch name {
+	case "Query":
+		req := &pilosa.QueryRequest{Index: "i", Query: fmt.Sprintf("Set(%d, f=3)", 10+n%50)}
+		if has("read") {
+			req.Query = "Count(Row(f=1))"
+		}
+		if has("keyed") {
+			req.Index = "k"
+			req.Query = fmt.Sprintf(`Set("qc%d", kf="qr%d")`, n, n)
+		}
+		if has("remote") {
+			req.Remote = true
+			req.Shards = []uint64{0}
+		}
+		if has("shards") {
+			req.Shards = []uint64{0, 1}
+		}
+		if has("noshards") {
+			req.Shards = nil
+		}
+		return vals(ctx, req), true
+	case "Import":
+		req := &pilosa.ImportRequest{Index: "i", Field: "f", Shard: 0, RowIDs: []uint64{5}, ColumnIDs: []uint64{uint64(100 + n%50)}}
+		if has("colkeys") {
+			req = &pilosa.ImportRequest{Index: "k", Field: "kf", Shard: 0, RowKeys: []string{fmt.Sprintf("ir%d", n)}, ColumnKeys: []string{fmt.Sprintf("ic%d", n)}}
+		}
+		if has("rowkeys") {
+			req = &pilosa.ImportRequest{Index: "i", Field: "fk", Shard: 0, RowKeys: []string{fmt.Sprintf("fr%d", n)}, ColumnIDs: []uint64{uint64(100 + n%50)}}
+		}
+		args := vals(ctx, req)
+		if has("clear") {
+			args = append(args, reflect.ValueOf(pilosa.OptImportOptionsClear(true)))
+		}
+		if has("ignorekeycheck") {
+			if has("colkeys") { // what a forwarding node sends: ids already translated
+				req.RowKeys, req.ColumnKeys = nil, nil
+				req.RowIDs, req.ColumnIDs = []uint64{1}, []uint64{uint64(100 + n%50)}
+			}
+			args = append(args, reflect.ValueOf(pilosa.OptImportOptionsIgnoreKeyCheck(true)))
+		}
+		return args, true
+	case "ImportValue":
+		req := &pilosa.ImportValueRequest{Index: "i", Field: "v", Shard: 0, ColumnIDs: []uint64{uint64(100 + n%50)}, Values: []int64{7}}
+		if has("colkeys") {
+			req = &pilosa.ImportValueRequest{Index: "k", Field: "kv", Shard: 0, ColumnKeys: []string{fmt.Sprintf("vc%d", n)}, Values: []int64{7}}
+		}
+		args := vals(ctx, req)
+		if has("ignorekeycheck") {
+			args = append(args, reflect.ValueOf(pilosa.OptImportOptionsIgnoreKeyCheck(true)))
+		}
+		return args, true
+	case "ImportRoaring":
+		req := &pilosa.ImportRoaringRequest{Clear: has("clear"), Views: map[string][]byte{"": roaringBytes()}}
+		return vals(ctx, "i", "f", uint64(0), has("remote"), req), true
+	case "ApplySchema":
+		return vals(ctx, &pilosa.Schema{Indexes: []*pilosa.IndexInfo{{Name: "sy"}}}, has("remote")), true
+	}
+	return nil, false
 }
 
 func roaringBytes() []byte {
@@ -163,9 +274,19 @@ func roaringBytes() []byte {
 }
 
 // buildArgs synthesises arguments for method m.
-func (p *prop) buildArgs(name string, mt reflect.Type, cancel *context.CancelFunc) []reflect.Value {
+func (p *prop) buildArgs(name, shape string, mt reflect.Type, cancel *context.CancelFunc) []reflect.Value {
 	api := p.s.API
 	p.seq++
+	if _, ok := variants[name]; ok {
+		if shape == "-" {
+			shape = variants[name][0]
+		}
+		ctx, c := context.WithCancel(context.Background())
+		*cancel = c
+		if args, ok := p.shapedArgs(name, shape, ctx); ok {
+			return args
+		}
+	}
 	strs := stringArgs[name]
 	if strs == nil {
 		strs = []string{"i", "f", "standard"}
@@ -227,7 +348,7 @@ func (p *prop) buildArgs(name string, mt reflect.Type, cancel *context.CancelFun
 	return args
 }
 
-func (p *prop) call(state, name string) (out string) {
+func (p *prop) call(state, name, shape string) (out string) {
 	if p.s == nil {
 		p.s = srv.Start(2)
 	}
@@ -243,7 +364,7 @@ func (p *prop) call(state, name string) (out string) {
 	before := pilosa.VerifC23Fingerprint(api)
 	pilosa.VerifC23SetState(api, state)
 	var cancel context.CancelFunc
-	args := p.buildArgs(name, mv.Type(), &cancel)
+	args := p.buildArgs(name, shape, mv.Type(), &cancel)
 	var res []reflect.Value
 	func() {
 		defer func() {
@@ -295,7 +416,7 @@ func (p *prop) Exec(lines []string) []string {
 	outs := make([]string, len(lines))
 	for i, l := range lines {
 		ws := strings.Fields(l)
-		ok := len(ws) == 3 && ws[0] == "call"
+		ok := (len(ws) == 3 || len(ws) == 4) && ws[0] == "call"
 		if ok {
 			ok = false
 			for _, s := range states {
@@ -308,8 +429,11 @@ func (p *prop) Exec(lines []string) []string {
 			outs[i] = "bad-op"
 			continue
 		}
-		st, nm := ws[1], ws[2]
-		outs[i] = vh.Guard("call", func() string { return p.call(st, nm) })
+		st, nm, sh := ws[1], ws[2], "-"
+		if len(ws) == 4 {
+			sh = ws[3]
+		}
+		outs[i] = vh.Guard("call", func() string { return p.call(st, nm, sh) })
 	}
 	return outs
 }
